@@ -33,6 +33,10 @@ import vlib
 
 PROPERTY = "C08"
 
+# UBSan and full debug info double the compile time of this Eigen-heavy TU (90 s -> 42 s); ASan and
+# _GLIBCXX_ASSERTIONS (the memory-safety observers F6 / F7 need) stay on
+CXX_EXTRA = ["-fno-sanitize=undefined", "-g1"]
+
 F7_SIG = "F7-eig-segment-N=d+skip"
 
 TRUSTED = [
@@ -259,12 +263,12 @@ def gen_wm_hlle_flat(rng, dmax):
 
 def gen_wm_hlle_oracle(rng):
     # d = 1: 3 Gram-Schmidt columns, cheap enough to run in exact arithmetic on the oracle eigenvectors
-    n = rng.choice([5, 6, 7])
+    n = rng.choice([5, 6])
     dim = rng.choice([2, 3])
     pts = gen_points(rng, n, dim, 5)
     n = len(pts)
     K = kernel_table(pts, rng.choice(["linear", "poly2"]))
-    k = rng.randint(3, 4)
+    k = 4
     return {"kind": "WM", "meth": "hlle", "n": n, "d": 1, "shift": "0", "tshift": "0",
             "nbrs": knn_lists(K, k), "kern": K, "gen": "hlle-oracle-d1"}
 
@@ -330,13 +334,14 @@ def gen_malformed(rng):
     K = kernel_table(pts, "linear")
     nb = knn_lists(K, 2)
     mode = rng.randrange(3)
+    meth, d = rng.choice(["lle", "ltsa", "hlle"]), 1
     if mode == 0:
         nb[rng.randrange(1, n)] = nb[1][:1]          # a short list
     elif mode == 1:
         nb[rng.randrange(n)][0] = n + rng.randint(0, 3)   # index out of range
     else:
-        nb = [[] for _ in range(n)]               # k = 0
-    return {"kind": "WM", "meth": rng.choice(["lle", "ltsa", "hlle"]), "n": n, "d": 1, "shift": "0x1p-10",
+        meth, d = rng.choice(["ltsa", "hlle"]), 3      # rightCols(d) with d > k
+    return {"kind": "WM", "meth": meth, "n": n, "d": d, "shift": "0x1p-10",
             "tshift": "0x1p-10", "nbrs": nb, "kern": K, "gen": "malformed"}
 
 
@@ -346,6 +351,8 @@ def nbrs_text(nb):
 
 
 def case_line(c):
+    if c["kind"] == "EIG":
+        return "EIG %d %s" % (c["n"], " ".join(cxx_tok(x) for r in c["M"] for x in r))
     kern = " ".join(cxx_tok(fr(x)) for r in c["kern"] for x in r)
     if c["kind"] == "WM":
         return "WM %s %d %d %s %s %s %s" % (c["meth"], c["n"], c["d"], cxx_tok(fr(c["shift"])),
@@ -353,8 +360,6 @@ def case_line(c):
     if c["kind"] == "EMB":
         return "EMB %s %s %d %d %d %s %s %s" % (c["meth"], c["nm"], c["n"], c["k"], c["d"],
                                                 cxx_tok(fr(c["shift"])), cxx_tok(fr(c["tshift"])), kern)
-    if c["kind"] == "EIG":
-        return "EIG %d %s" % (c["n"], " ".join(cxx_tok(x) for r in c["M"] for x in r))
     raise ValueError(c["kind"])
 
 
@@ -482,11 +487,53 @@ def finite(M):
     return isinstance(M, list) and all(x is not None for r in M for x in r)
 
 
-def well_formed(nbrs, n):
+def well_formed(nbrs, n, meth="lle", d=0):
+    """mirror of harness plausible(): inputs on which the C++ routine has defined behaviour"""
     if not nbrs or not nbrs[0]:
         return False
     k = len(nbrs[0])
-    return all(len(l) >= k and all(0 <= v < n for v in l) for l in nbrs)
+    if not all(len(l) >= k and all(0 <= v < n for v in l[:k]) for l in nbrs):
+        return False
+    return meth == "lle" or d <= k
+
+
+def hlle_conditioning(Vrows, k, d):
+    """floating-point replay of the Gram-Schmidt loop on one neighbourhood: smallest ratio
+    |residual| / |column| over the 1 + d + d(d+1)/2 columns (0 = exactly dependent columns)"""
+    cols = [[1.0] * k] + [[float(Vrows[a][t]) for a in range(k)] for t in range(d)]
+    for j in range(d):
+        for p in range(d - j):
+            cols.append([cols[j + 1][a] * cols[j + p + 1][a] for a in range(k)])
+    Q, worst = [], 1.0
+    for c in cols:
+        n0 = math.sqrt(sum(x * x for x in c)) or 1.0
+        v = list(c)
+        for q in Q:
+            r = sum(x * y for x, y in zip(v, q))
+            v = [x - r * y for x, y in zip(v, q)]
+        nv = math.sqrt(sum(x * x for x in v))
+        worst = min(worst, nv / n0)
+        if nv == 0.0:
+            return 0.0
+        Q.append([x / nv for x in v])
+    return worst
+
+
+def hlle_well_conditioned(c, nbrs, mats, thr=1e-4):
+    k, d = len(nbrs[0]), c["d"]
+    if k < hlle_ncols(d):
+        return False
+    for i, l in enumerate(nbrs):
+        if "flatX" in c:
+            V = [c["flatX"][j] for j in l[:k]]
+        else:
+            E = mats.get("Eloc")
+            if not finite(E):
+                return False
+            V = [E[i * k + a][k - d:] for a in range(k)]
+        if hlle_conditioning(V, k, d) < thr:
+            return False
+    return True
 
 
 REL_M = Fraction(1, 10 ** 7)
@@ -533,7 +580,7 @@ class Stats:
         self.nontrivial = set()
         self.counts = {"wm_compared": 0, "wm_unique": 0, "wm_degenerate": 0, "emb_checked": 0,
                        "emb_centred_checked": 0, "emb_affine_checked": 0, "eig_contract_calls": 0,
-                       "model_oob_agree": 0, "exceptions": 0, "f7_seen": 0}
+                       "model_oob_agree": 0, "exceptions": 0, "f7_seen": 0, "hlle_ill_conditioned": 0}
         self.samples = []
 
     def bump(self, c):
@@ -609,21 +656,45 @@ def check_matrix(ctx, mexe, c, nbrs, mats, Mimpl, model_out, stats):
 
 
 def check_eig_contract(ctx, mexe, c, nbrs, mats, stats):
-    """oracle contract of the local SelfAdjointEigenSolver calls against the model's exact centred Gram"""
+    """oracle contract of the local SelfAdjointEigenSolver calls against the MODEL's exact centred Gram
+    (local_centered_gram, printed by the driver): E^T E = I and B E = E diag(lam) within tolerance, ascending
+    eigenvalues; every call in exact rational arithmetic here, the first call of every case additionally
+    through the extracted eig_contract_b."""
     n = c["n"]
     k = len(nbrs[0])
     E, lam = mats.get("Eloc"), mats.get("lamloc")
-    if not finite(E) or not finite(lam):
+    if not finite(E) or not finite(lam) or len(E) != n * k or len(lam) != n:
         ctx.mismatch(slim(c), "local eigensolver returned non-finite values")
         return
     kern = [[fr(x) for x in r] for r in c["kern"]]
     top = 1 + max_abs(lam)
-    line = "EIGC %d %s %s %s %s %s" % (n, q_tok(TOL_EIG * top * k), nbrs_text(nbrs), qmat_text(kern),
-                                       qmat_text(E), qmat_text(lam))
-    out = run_model_lines(ctx, mexe, [line])[0].split()
+    tol = TOL_EIG * top * k
+    lines = ["LOCB %d %s %s" % (n, nbrs_text(nbrs), qmat_text(kern)),
+             "EIGC %d 1 %s %s %s %s %s" % (n, q_tok(tol), nbrs_text(nbrs), qmat_text(kern),
+                                          qmat_text(E[:k]), qmat_text(lam[:1]))]
+    out = run_model_lines(ctx, mexe, lines)
+    w = out[0].split()
+    if w[0] != "OK" or len(w) != 1 + n * k * k:
+        raise vlib.BuildError("model driver LOCB: " + out[0][:100])
+    vals = [parse_q(t) for t in w[1:]]
     stats.counts["eig_contract_calls"] += n
-    if out[0] != "OK" or any(b != "1" for b in out[1:]):
-        bad = [i for i, b in enumerate(out[1:]) if b != "1"]
+    bad = []
+    if out[1].split() != ["OK", "1"]:
+        bad.append(0)
+    for s_ in range(n):
+        B = [vals[(s_ * k + a) * k:(s_ * k + a + 1) * k] for a in range(k)]
+        Es = E[s_ * k:(s_ + 1) * k]
+        ls = lam[s_]
+        ok = all(ls[a] <= ls[a + 1] + tol for a in range(k - 1))
+        for a in range(k):
+            for b in range(k):
+                g = sum(Es[t][a] * Es[t][b] for t in range(k)) - (1 if a == b else 0)
+                r = sum(B[a][t] * Es[t][b] for t in range(k)) - Es[a][b] * ls[b]
+                if abs(g) > tol or abs(r) > tol:
+                    ok = False
+        if not ok and s_ not in bad:
+            bad.append(s_)
+    if bad:
         ctx.mismatch(slim(c), "oracle contract of the local eigensolver fails against the model's exact centred "
                               "Gram (centerMatrix / Gram fill differ from the model) at samples %s" % bad[:5])
     rsk = mats.get("rsk")
@@ -670,10 +741,15 @@ def evaluate(ctx, exe, mexe, cases, stats):
             ctx.violation(slim(c), "the implementation printed garbage for this input")
             continue
         if c["kind"] == "WM":
-            ok_input = well_formed(c["nbrs"], c["n"])
+            ok_input = well_formed(c["nbrs"], c["n"], c["meth"], c["d"])
             if not ok_input:
                 # malformed stream: the harness must have refused it, the model must say OOB
-                line = model_line(dict(c, meth="lle"), c["nbrs"], {}) if c["nbrs"] else None
+                if well_formed(c["nbrs"], c["n"]):
+                    k0 = len(c["nbrs"][0])
+                    zeros = " ".join("0" for _ in range(c["n"] * k0 * c["d"]))
+                    line = "HLLE 0 %d %d %s %s" % (c["n"], c["d"], nbrs_text(c["nbrs"]), zeros)
+                else:
+                    line = model_line(dict(c, meth="lle"), c["nbrs"], {}) if c["nbrs"] else None
                 out = run_model_lines(ctx, mexe, [line])[0] if line else "OOB"
                 if out.startswith("OOB") and res["exc"]:
                     stats.counts["model_oob_agree"] += 1
@@ -707,6 +783,11 @@ def evaluate(ctx, exe, mexe, cases, stats):
             continue
         if not model_feasible(c, nb, ctx.quick):
             continue    # exact arithmetic too expensive: the case only feeds the end-to-end clauses
+        if c["meth"] == "hlle" and not hlle_well_conditioned(c, nb, res["mats"]):
+            # some Gram-Schmidt column is (nearly) dependent on the earlier ones: the C++ normalises rounding
+            # noise, the local matrix is not determined by the data (outside "manifold-like data")
+            stats.counts["hlle_ill_conditioned"] += 1
+            continue
         lines.append(model_line(c, nb, res["mats"]))
         idx.append(t)
     outs = run_model_lines(ctx, mexe, lines)
@@ -831,7 +912,7 @@ def build_cases(ctx, rng, budget, thorough):
     return cases
 
 
-QUICK = {"lle": 40, "ltsa": 30, "hlle_flat": 24, "hlle_oracle": 6, "malformed": 6, "emb": 12, "f7": 1}
+QUICK = {"lle": 40, "ltsa": 30, "hlle_flat": 24, "hlle_oracle": 3, "malformed": 6, "emb": 12, "f7": 1}
 THOROUGH = {"lle": 400, "ltsa": 300, "hlle_flat": 200, "hlle_oracle": 40, "malformed": 30, "emb": 100, "f7": 3}
 SEARCH = {"lle": 120, "ltsa": 80, "hlle_flat": 60, "hlle_oracle": 10, "malformed": 0, "emb": 40, "f7": 0}
 
@@ -839,7 +920,7 @@ SEARCH = {"lle": 120, "ltsa": 80, "hlle_flat": 60, "hlle_oracle": 10, "malformed
 def run(ctx):
     rng = ctx.rng
     ctx.coq()
-    exe = ctx.cpp("harness/c08.cpp")
+    exe = ctx.cpp("harness/c08.cpp", extra=CXX_EXTRA)
     mexe = ctx.extract()
     stats = Stats()
     thorough = not ctx.quick
@@ -849,8 +930,10 @@ def run(ctx):
         c["gen"] = "corpus:" + name
         cases.append(c)
     cases += build_cases(ctx, rng, THOROUGH if thorough else QUICK, thorough)
+    t_build = ctx.elapsed()
     for i in range(0, len(cases), 60):
         evaluate(ctx, exe, mexe, cases[i:i + 60], stats)
+    ctx.note("wall: build %.0fs, cases %.0fs" % (t_build, ctx.elapsed() - t_build))
     if ctx.is_unshown():
         # proof or correspondence broken, no failing input yet: search with a larger budget
         ctx.note("search phase: proof/correspondence no longer checks, larger budget")
@@ -884,7 +967,7 @@ def run(ctx):
 
 
 def replay(ctx, case):
-    exe = ctx.cpp("harness/c08.cpp")
+    exe = ctx.cpp("harness/c08.cpp", extra=CXX_EXTRA)
     mexe = ctx.extract()
     stats = Stats()
     evaluate(ctx, exe, mexe, [case], stats)
